@@ -2,21 +2,13 @@
    Text is a list of bytes.  Everything here is independent of the digit-level model
    (model/Radix.v, model/RadixText.v) except for the shared result types and the
    pad_integral model (std dependency code, modelled-not-verified). *)
-From BigNum Require Import Base RadixText.
+From BigNum Require Import Base SpecBytes RadixText.
 Open Scope Z_scope.
 
-(** little-endian digits of [n] in base [b] (b >= 2), none for n <= 0: the unique expansion
-    without a high zero digit.  (Same definition as SpecBytes.le_digits.) *)
-Fixpoint digits_le_fuel (f : nat) (b n : Z) : list Z :=
-  match f with
-  | O => []
-  | S f' => if n <=? 0 then [] else (n mod b) :: digits_le_fuel f' b (n / b)
-  end.
-Definition digits_le (b n : Z) : list Z := digits_le_fuel (Z.to_nat (Z.log2 n + 1)) b n.
-
-(** value of a little-endian digit sequence in base [b]: Σ d_i b^i  (= SpecBytes.le_value) *)
-Fixpoint dsum (b : Z) (l : list Z) : Z :=
-  match l with [] => 0 | d :: r => d + b * dsum b r end.
+(** [le_digits b n] (SpecBytes): little-endian digits of [n] in base [b], none for n <= 0 — the
+    unique expansion without a high zero digit; [le_value b l] = Σ d_i b^i. *)
+Notation digits_le := le_digits.
+Notation dsum := le_value.
 
 Definition radix_in (lo hi r : Z) : bool := (lo <=? r) && (r <=? hi).
 
